@@ -139,12 +139,21 @@ def gen_case(rng, it):
         nrow = [1000, 1001, 999, 4096, 10000, 12345, 65536, 100000][(it // 40) % 8]
         ncol = int(rng.integers(1, 3))
     elif it % 40 == 31:
-        ncol = [1000, 1024, 1200][(it // 40) % 3]
+        # (8000 columns: a line of column names longer than 64 kB)
+        ncol = [1000, 1024, 1200, 8000][(it // 40) % 4]
         nrow = 2
+    if it % 40 == 9:
+        ncol = 1              # (a single column, named with dashes only: see below)
     used = set()
     cols = []
     for j in range(ncol):
-        name = rand_name(rng, used) if ncol < 500 else f"c{j}"
+        name = rand_name(rng, used) if ncol < 500 else f"c{j}" if ncol < 5000 else \
+            f"site_{j:05d}"
+        if it % 20 == 9 and j == 0:
+            # a name made of dashes (or underscores, or digits) only, short and long
+            name = ["-", "--", "-" * 9, "-" * 10, "-" * 12, "-" * 50, "_" * 12, "2020",
+                    "- -", "-" * 11][(it // 20) % 10]
+            used.add(name)
         kind = ["float", "int", "text"][int(rng.integers(0, 3))]
         if nrow >= 999 or ncol >= 500:
             kind = ["float", "int"][j % 2]
@@ -182,6 +191,10 @@ def gen_case(rng, it):
                 break
         kind = "dashes" if (it % 23 == 0 and k == 0) else "regular"
         comments[key] = rand_comment_value(rng, kind)
+        if it % 29 == 6 and k == 0:
+            # a very long single-line value (a list of station numbers, a WKT outline)
+            nlong = [5000, 65500, 65536, 70000, 200000][(it // 29) % 5]
+            comments[key] = ("410730, " * (nlong // 8 + 1))[:nlong].strip()
         if it % 5 == 2 and k == 0:
             # a value that quotes its own key (and the key : value separator)
             comments[key] = [f"see {key} : 410730", f"{key}: {key} : {key}",
